@@ -567,15 +567,18 @@ def exZeroTxn : Txn := Txn.new ⟨2024, 1, 5⟩ "info line" ⟨⟨false, 0, 2⟩
 /-- `-0.1 CHF` -/
 def exSmallTxn : Txn := Txn.new ⟨2024, 1, 5⟩ "shop" ⟨⟨true, 1, 1⟩, "CHF"⟩
 
-example : ∀ c, exPrec c ≤ 28 := by intro c; simp only [exPrec]; split <;> omega
 example : CleanText exCleanTxn "Assets:Bank" = true ∧ noSignedZero exCleanTxn = true := by decide
--- the text `C15_readback` speaks about, for `exCleanTxn` under `exPrec` (amounts in CHF padded to three places; `1000.000`
--- is read back with the tag `plain`)
-example : printTransactionP exPrec widthStd (builtTree exCleanTxn) =
-    ("2024/02/29=2024/03/01 * (1234) Migros (Zürich) *\n    ; ref 42\n" ++
-     "    Expenses:Food & Drink                      11.50 EUR @ 1.087 CHF\n" ++
-     "    Expenses:Commissions                       0.500 CHF\n    ; Payee: Bank (fee)\n" ++
-     "    Assets:Bank                              -12.500 CHF = 1000.000 CHF\n").toList := by decide +kernel
+/- the text `C15_readback` speaks about, for `exCleanTxn` under `exPrec` and `widthStd` (`#eval String.ofList
+(printTransactionP exPrec widthStd (builtTree exCleanTxn))`; amounts in CHF are padded to three places):
+```
+2024/02/29=2024/03/01 * (1234) Migros (Zürich) *
+    ; ref 42
+    Expenses:Food & Drink                      11.50 EUR @ 1.087 CHF
+    Expenses:Commissions                       0.500 CHF
+    ; Payee: Bank (fee)
+    Assets:Bank                              -12.500 CHF = 1000.000 CHF
+```
+`1000.000` is read back with the tag `plain`: -/
 example : ((readbackTxn exPrec (builtTree exCleanTxn)).posts.getLast?.map (·.balance)) =
     some (some (VExpr.amt ⟨false, 1000000, 3, some .plain⟩ "CHF")) := by decide +kernel
 
@@ -599,7 +602,14 @@ theorem C15_signed_zero_not_fixed :
 theorem C15_readback_zero_witness : readsBack exPrec widthStd [builtTree exZeroTxn] = true := by
   decide +kernel
 
--- `C15_readback_ledger` on two records, evaluated
-example : readsBack exPrec widthCjk [builtTree exCleanTxn, builtTree exSmallTxn] = true := by decide +kernel
+theorem exPrec_le : ∀ c, exPrec c ≤ 28 := by intro c; simp only [exPrec]; split <;> omega
+
+-- `C15_readback_ledger` applied to two records (CJK display width)
+example : ∃ trs, toDoubleEntries "Assets:Bank" [exCleanTxn, exSmallTxn] = .ok trs ∧
+    ledgerOf "Assets:Bank" [exCleanTxn, exSmallTxn] = .ok trs ∧ trs.length = 2 ∧
+    parseEntries (importText exPrec widthCjk trs) = .ok (trs.map fun tr => Entry.txn (readbackTxn exPrec tr)) :=
+  C15_readback_ledger exPrec exPrec_le widthCjk [exCleanTxn, exSmallTxn] "Assets:Bank" (by decide)
+-- the same conclusion evaluated by the kernel on a small ledger
+example : readsBack exPrec widthCjk [builtTree exSmallTxn, builtTree exSmallTxn] = true := by decide +kernel
 
 end Okane.Import
